@@ -290,6 +290,48 @@ func run(c *Case, identity bool, st *Stats) *vf.Failure {
 				t.Abort()
 			}
 			st.Classes["aborted-transaction"] = true
+		case "bigjoin":
+			// a hash join whose build side needs several temporary pages: these pages are allocated and deallocated
+			// without ever reaching the db file (their ids live on in the log's deallocation records)
+			if _, ok := m.Tables["ja"]; !ok {
+				for _, hd := range []*dbh.TableDef{
+					{Name: "ja", Cols: []dbh.Col{{Name: "k", T: "i", Idx: dbh.IdxNone}, {Name: "w", T: "s", Idx: dbh.IdxNone}}},
+					{Name: "jb", Cols: []dbh.Col{{Name: "k", T: "i", Idx: dbh.IdxNone}, {Name: "v", T: "i", Idx: dbh.IdxNone}}}} {
+					if err := db.CreateTable(hd); err != nil {
+						return vf.Failf("create-error", "%s %s: %v", when, hd.Name, err)
+					}
+					m.Create(hd)
+					defs = append(defs, hd)
+				}
+				for b := 0; b < 400; b += 40 {
+					ins := &dbh.Stmt{Kind: "insert", Table: "ja", Cols: []string{"k", "w"}}
+					for i := b; i < b+40; i++ {
+						ins.Rows = append(ins.Rows, dbh.Row{dbh.IntV(int32(i)), dbh.StrV(strings.Repeat("j", 80))})
+					}
+					if _, err := db.Auto(ins); err != nil {
+						return vf.Failf("dml-error", "%s %s: %v", when, "insert into ja", err)
+					}
+					m.Apply(ins, dbh.EvalMode{})
+				}
+				for b := 0; b < 400; b += 40 { // both sides are large: whichever side the optimizer builds the hash table from spills over several temporary pages
+					ins := &dbh.Stmt{Kind: "insert", Table: "jb", Cols: []string{"k", "v"}}
+					for i := b; i < b+40; i++ {
+						ins.Rows = append(ins.Rows, dbh.Row{dbh.IntV(int32(i)), dbh.IntV(int32(100 + i))})
+					}
+					if _, err := db.Auto(ins); err != nil {
+						return vf.Failf("dml-error", "%s %s: %v", when, "insert into jb", err)
+					}
+					m.Apply(ins, dbh.EvalMode{})
+				}
+			}
+			rows, err := db.FrontDoor("SELECT ja.k, jb.v FROM ja, jb WHERE ja.k = jb.k;")
+			if err != nil {
+				return vf.Failf("join-error", "%s: join of the helper tables: %v", when, err)
+			}
+			if len(rows) != 400 {
+				return vf.Failf("join-rows", "%s: join of the helper tables returned %d rows, 400 expected", when, len(rows))
+			}
+			st.Classes["hash-join-with-temporary-pages"] = true
 		case "restart", "crash":
 			n := 0
 			for _, d := range defs {
@@ -362,6 +404,8 @@ type GenOpts struct {
 	// B-tree table had a crash restart, later restarts are crash restarts too
 	NoBtreeCleanAfterCrash bool
 	OnExcluded             func(string)
+	// BigJoinPct: share of operations that run a hash join over two helper tables (400 x 400 rows)
+	BigJoinPct int
 	// ManyTablesPct: share of histories that start by creating 9-13 six-column tables (names and column names of
 	// different lengths), so that the columns catalog spills over to a second heap page before the restarts begin
 	ManyTablesPct int
@@ -408,6 +452,13 @@ func Gen(t *rapid.T, o GenOpts) *Case {
 	}
 	for i := 0; i < n; i++ {
 		k := rapid.IntRange(0, 9).Draw(t, "opk")
+		if o.BigJoinPct > 0 && len(g.defs) > 0 && rapid.IntRange(0, 99).Draw(t, "bigjoin") < o.BigJoinPct {
+			c.Ops = append(c.Ops, Op{K: "bigjoin"})
+			if rapid.Bool().Draw(t, "joinrestart") { // stop right after the join: nothing else allocates a page in between
+				c.Ops = append(c.Ops, Op{K: restartKind(t, o, c, nBtree)})
+			}
+			continue
+		}
 		switch {
 		case len(g.defs) == 0 || (k == 0 && len(g.defs) < o.MaxTables):
 			// table names are case-insensitive in the engine (the catalog folds them to lower case); some names are written with capitals
@@ -446,7 +497,7 @@ func Gen(t *rapid.T, o GenOpts) *Case {
 			c.Ops = append(c.Ops, Op{K: restartKind(t, o, c, nBtree)})
 		}
 	}
-	if k := c.Ops[len(c.Ops)-1].K; k == "create" || k == "dml" || k == "abort-txn" {
+	if k := c.Ops[len(c.Ops)-1].K; k == "create" || k == "dml" || k == "abort-txn" || k == "bigjoin" {
 		c.Ops = append(c.Ops, Op{K: restartKind(t, o, c, nBtree)})
 	}
 	frames := 3*nIdx + 8*nBtree + 10 + rapid.SampledFrom([]int{0, 6, 30, 100}).Draw(t, "spare")
